@@ -568,6 +568,7 @@ int Run::submit(int kind, int name_sel, int type_sel, int reaction, int react_ki
   Req &r = reqs[(size_t)token];
   r.api_ret = r.accepted ? ret : r.api_ret;
   r.in_call = false;
+  if (r.accepted && r.cb_count == 0) settled_outstanding++;
   if (r.cb_count > 0) { r.done_sync = true; note("req_done_sync"); }
   return token;
 }
@@ -590,6 +591,7 @@ void Run::complete(int token, int status, int timeouts, Delivered &d) {
     violate("C01", "double_callback", "request " + std::to_string(token) + " (" + req_kind_name[r0.kind] + " " + r0.name + ") got callback #" + std::to_string(r0.cb_count) + " with status " + ares_status_name(status) + " (first was " + ares_status_name(r0.status) + ")");
     return;
   }
+  if (!r0.in_call && r0.accepted) { if (--settled_outstanding == 0) settled_zero_transitions++; }
   Chan &c = chans[(size_t)r0.chan];
   if (!c.alive) { r0.cb_after_destroy = true; violate("C01", "callback_after_destroy", "request " + std::to_string(token) + " completed after ares_destroy returned"); }
   r0.status = status; r0.timeouts = timeouts; r0.t_done = W.now_us; r0.tx_at_done = (int)W.txs.size();
@@ -626,7 +628,7 @@ void Run::do_cancel(int chan) {
   Chan &c = chans[(size_t)chan];
   if (!c.alive || !c.ch) return;
   std::vector<int> out;
-  for (auto &r : reqs) if (r.accepted && r.cb_count == 0 && r.chan == chan) out.push_back(r.token);
+  for (auto &r : reqs) if (r.accepted && r.cb_count == 0 && r.chan == chan && !r.in_call) out.push_back(r.token);   // a request another thread is still submitting may not be queued yet
   W.api_seq++;
   note("cancel_toplevel");
   if (!out.empty()) note("cancel_with_outstanding");
